@@ -15,7 +15,7 @@ pub const WORDS: &[&str] = &[
 pub const NUMBERS: &[&str] = &["2", "10", "9.5", "-3", "0", "7", "100", "3.25", "-10", "42"];
 pub const DIRS: &[&str] = &["a", "b", "src", "docs", "my dir", "v1.2", "lib", "pkg"];
 pub const STEMS: &[&str] = &[
-    "main", "util", "x", "mod", "data", "conf", "app", "b", "my file", "v2.conf", "a",
+    "main", "util", "x", "mod", "data", "conf", "app", "b", "my file", "v2.conf", "a", "[id]", "{slug}",
 ];
 pub const HASH_EXTS: &[&str] = &["py", "rb", "sh"];
 pub const WRAP_EXTS: &[&str] = &["rs", "js", "go", "ts", "java", "cs", "c", "cpp", "swift", "php", "toml"];
@@ -199,7 +199,9 @@ impl<'a> Gen<'a> {
             }
             Style::Rich => {
                 for i in 0..n {
-                    let v = match self.rng.below(7) {
+                    let v = match self.rng.below(if path.ends_with(".py") { 8 } else { 7 }) {
+                        // one CRLF-terminated line inside an LF file (Python accepts both)
+                        7 => format!("y{i} = {}\r", self.rng.below(100)),
                         0 => "s = \"he said \\\"hi\\\" \\\\ back\"".to_string(),
                         1 => "t = \"single ' quote\"".to_string(),
                         2 => "u = \"caf\u{e9} \u{2603} \u{1f600} \u{4e16}\u{754c}\"".to_string(),
@@ -587,7 +589,12 @@ impl<'a> Gen<'a> {
         let same_lang = wrapper_free(&self.world.files[target].path) == wrapper_free(&self.world.files[fi].path)
             && (self.world.files[target].path.ends_with(".py") == self.world.files[fi].path.ends_with(".py")
                 || twin.lines.iter().all(|l| !l.starts_with(' ')));
-        let target = if same_lang { target } else { fi };
+        let has_cr = twin.lines.iter().any(|l| l.contains('\r'));
+        let target = if same_lang && (!has_cr || self.world.files[target].path.ends_with(".py")) {
+            target
+        } else {
+            fi
+        };
         let pos = self.rng.below(self.world.files[target].blocks.len() + 1);
         self.world.files[target].blocks.insert(pos, twin);
     }
